@@ -9,6 +9,7 @@ import impl_layout as I
 
 req = json.load(sys.stdin)
 opts = {k: (v if k == "algorithm" or v is None else Fraction(v)) for k, v in req["opts"].items()}
+opts.setdefault("density", Fraction(I.force_mod.DEFAULT_OPTIONS["density"]))
 I._state["exact"] = True
 try:
     eng = I.force_mod.Force(opts)
